@@ -253,7 +253,20 @@ fn outcome_of(rec: &mut Rec, rng: &mut Rng, bytes: &[u8], what: &str, family: &'
         }
     };
     if let Some(tz) = tz {
-        let ts = lookup_timestamps(rng);
+        let mut ts = lookup_timestamps(rng);
+        // where the file's own table can be read: every transition −1/0/+1 s and a point inside every interval
+        // (inserted before the range-end timestamps, which stay last)
+        if let Ok(Ok(r)) = trap(|| crate::model::tzif_ref::parse(bytes)) {
+            let mut own: Vec<i64> = vec![];
+            for w in r.transitions.iter().take(300) {
+                own.extend_from_slice(&[w.saturating_sub(1), *w, w.saturating_add(1), w.saturating_add(86_400 * 20)]);
+            }
+            own.retain(|t| *t > MIN_TS + 86_400 * 800 && *t < MAX_TS - 86_400 * 800);
+            let keep = ts.len() - 8;
+            let tail = ts.split_off(keep);
+            ts.extend(own);
+            ts.extend(tail);
+        }
         rec.api_n("VerifTz::offset", ts.len() as u64);
         let (mut inner_reported, mut edge_reported) = (false, false);
         for t in ts {
@@ -370,6 +383,21 @@ pub fn run(ctx: &Ctx) -> PropResult {
     for k in 0..ctx.n(16, 80) {
         let s = gen_synth(&mut rng);
         bases.push((format!("synthetic#{}", k), s.bytes()));
+    }
+    // files with a full (or almost full) type table: the type index is one byte, so 254 / 255 / 256 types are where
+    // "index < count" and "index <= 255" stop meaning the same thing
+    for ntypes in [254usize, 255, 256] {
+        for version in [1u8, 2] {
+            let types: Vec<(i32, bool)> = (0..ntypes).map(|k| (((k as i32 % 27) - 13) * 1800, k % 2 == 1)).collect();
+            let n_tr = 14usize;
+            let transitions: Vec<i64> = (0..n_tr as i64).map(|k| -400_000_000 + k * 190_000_000 + rng.range_i64(0, 1_000_000)).collect();
+            let type_idx: Vec<u8> = (0..n_tr).map(|k| if k == n_tr - 1 { 0 } else { *rng.pick(&[0u8, 1, 2, (ntypes - 1).min(255) as u8, (ntypes - 2) as u8, 100]) }).collect();
+            let footer = if version >= 2 { "XXX6:30".to_string() } else { String::new() };
+            let mut types = types;
+            types[0] = (-23_400, false);
+            let s = crate::model::tzif_gen::Synth { version, transitions, type_idx, types, footer };
+            bases.push((format!("synthetic-v{}-with-{}-types", version, ntypes), s.bytes()));
+        }
     }
     let layouts: Vec<Layout> = bases.iter().map(|(_, b)| layout(b)).collect();
     let muts: Vec<Vec<(String, &'static str, Vec<u8>)>> = bases.iter().zip(layouts.iter()).map(|((_, b), l)| structural_mutations(b, l)).collect();
